@@ -14,7 +14,7 @@ from gen import progs
 
 PROP = "C01"
 HARNESS_BINS = ["eval"]
-COQ_TARGETS = ["Properties/C01.vo", "Core/Sem.vo", "Core/StrProofs.vo"]
+COQ_TARGETS = ["Properties/C01.vo", "Core/Sem.vo", "Core/StrProofs.vo", "Scope/SlotSim.vo"]
 TRUSTED = ["coq/Core/Sem.v is the reference semantics (hand-written; validated against CPython 3.11 on every generated program)",
            "tools/gen/progs.py (program generator and the two renderers: source text / Gallina term)",
            "cases.v route: programs are evaluated by vm_compute inside coqc"]
@@ -81,6 +81,7 @@ def obs_text(o):
 # strings are printed as byte-code lists so that no character of a transcript can confuse the parser of coqc's output
 MODEL_PRELUDE = """From Coq Require Import ZArith NArith String List Ascii.
 From SV Require Import Core.Syntax Core.Values Core.Sem.
+From SV Require Scope.SlotSem.
 Import ListNotations.
 Open Scope string_scope.
 Open Scope Z_scope.
@@ -95,6 +96,9 @@ Fixpoint enc (o : obs) : eobs :=
   | OOther t => XOther (codes t)
   end.
 Definition run_enc (fuel : nat) (prog : list stmt) := let r := run_program fuel prog in (map enc (fst r), snd r).
+(* the same program through the compiler's slot resolution and the evaluator's frame discipline (Scope/SlotSem.v) *)
+Definition run_slot_enc (fuel : nat) (prog : list stmt) :=
+  match SV.Scope.SlotSem.run_resolved fuel prog with Some r => Some (map enc (fst r), snd r) | None => None end.
 """
 
 
@@ -118,7 +122,7 @@ def run_model(ctx, items, nshard=None, timeout=400, depth=0):
             continue
         text = MODEL_PRELUDE
         for i in idx:
-            text += "Eval vm_compute in (run_enc %d %s).\n" % (FUEL, items[i])
+            text += "Eval vm_compute in (let p := %s in (run_enc %d p, run_slot_enc %d p)).\n" % (items[i], FUEL, FUEL)
         files.append(("prog_%d_%d" % (depth, s), text))
         parts.append(idx)
     outs = sv.coq_eval_files(ctx, files, timeout=timeout)
@@ -131,8 +135,13 @@ def run_model(ctx, items, nshard=None, timeout=400, depth=0):
             log += out[-400:]
             failed += idx[len(vals):] if rc != 0 and len(vals) < len(idx) else idx
         for i, v in zip(idx, vals[:len(idx)]):
-            tr, oc = v
-            res[i] = ([obs_text(x) for x in tr], model_outcome(oc))
+            tr, oc, sl = v
+            slot = None
+            if isinstance(sl, list) and sl[0] == "Some":
+                slot = ([obs_text(x) for x in sl[1][0]], model_outcome(sl[1][1]))
+            elif sl == "None":
+                slot = "unresolved"
+            res[i] = ([obs_text(x) for x in tr], model_outcome(oc), slot)
     failed = [i for i in failed if res[i] is None]
     if failed and depth < 2:
         # a shard died (time/memory limit): re-run its unevaluated programs in smaller files with a longer limit
@@ -158,10 +167,17 @@ def run_python(ctx, srcs):
 
 def compare(ctx, entries):
     """entries: list of dicts {src, coq, id, variant}. Returns failures, stats."""
+    py, plog = run_python(ctx, [e.get("pysrc", e["src"]) for e in entries])
+    # a program whose CPython run exceeds run_ref.STEP_LIMIT line events (e.g. a string grown inside a loop over itself: millions of
+    # iterations, gigabytes of transcript) is outside the size bound of the property's quantifier: it is dropped before anything runs it
+    if py is not None and any(p.get("huge") for p in py):
+        keep = [i for i in range(len(entries)) if not py[i].get("huge")]
+        ctx.log("dropped %d program(s) whose CPython run exceeds the step limit" % (len(entries) - len(keep)))
+        entries = [entries[i] for i in keep]
+        py = [py[i] for i in keep]
     cases = [{"src": e["src"], "opts": {}} for e in entries]
     rc, log, impl = sv.run_harness_sharded(ctx, "eval", cases, timeout=900)
     ctx.log("implementation ran %d programs (rc=%s)" % (len(cases), rc))
-    py, plog = run_python(ctx, [e.get("pysrc", e["src"]) for e in entries])
     # programs whose run is large (long loops, big objects) are not sent to the Gallina interpreter, whose unary/inductive
     # data would need gigabytes; they are counted as skipped
     small = [i for i in range(len(entries))
@@ -190,12 +206,31 @@ def compare(ctx, entries):
             continue
         step = r["steps"][0]
         itr, iout = step["tr"], step["out"]
-        mtr, mout = m
+        mtr, mout, slot = m
         if "nofuel" in mout:
             st["nofuel"] += 1
             continue
         iline = (iout["err"]["span"]["bl"] + 1) if ("err" in iout and iout["err"].get("span")) else 0
         ikind = impl_kind(iout["err"]["msg"]) if "err" in iout else None
+        # tie of the SLOT MACHINE (Scope/SlotSem.v: the compiler's slot resolution + the evaluator's frame discipline) to the real
+        # evaluator: same transcript, same ok/fail, same failing line.  Theorem C01_slots_sim_partial relates it to the reference.
+        if slot == "unresolved":
+            st["slot_unresolved"] = st.get("slot_unresolved", 0) + 1
+        elif slot is not None and "nofuel" not in slot[1]:
+            str_, sout = slot
+            sok = itr == str_ and (("ok" in iout) == ("ok" in sout)) and ("err" not in sout or iline == sout["err"]["line"])
+            st["slot_checked"] = st.get("slot_checked", 0) + 1
+            if sok:
+                st["slot_agree"] = st.get("slot_agree", 0) + 1
+                if (str_, "ok" in sout) != (mtr, "ok" in mout):
+                    st["slot_agrees_with_impl_against_reference"] = st.get("slot_agrees_with_impl_against_reference", 0) + 1
+            elif (str_, sout) == (mtr, mout):
+                # the slot machine behaves like the reference and both differ from the evaluator: that difference is reported below
+                # as an implementation-vs-reference failure (violation or known finding); it says nothing about the frame discipline
+                st["slot_equals_reference_not_impl"] = st.get("slot_equals_reference_not_impl", 0) + 1
+            else:
+                st.setdefault("slot_diffs", []).append({"id": e["id"], "variant": e["variant"], "src": e["src"], "impl": [itr, iout],
+                                                        "slot_machine": [str_, sout], "reference": [mtr, mout]})
         ok = itr == mtr and (("ok" in iout) == ("ok" in mout))
         if ok and "err" in mout:
             ok = iline == mout["err"]["line"]
@@ -365,6 +400,15 @@ def correspond(ctx):
     failures, st = compare(ctx, entries)
     ufail, ust = compare_unicode(ctx, unicode_cases(ctx, ctx.n(1500, 20000)))
     failures += ufail
+    broken = []
+    if st.get("slot_diffs"):
+        d = st["slot_diffs"][0]
+        sv.write_replay(ctx, "slot-machine-tie", {"property": PROP, "tie": "Scope/SlotSem.v run_resolved vs the real evaluator",
+                                                   "first": d, "count": len(st["slot_diffs"])})
+        broken.append(("slot-machine-tie", "the slot machine of Scope/SlotSem.v (premise of C01_slots_sim_partial) and the evaluator differ "
+                       "on %d program(s), first %s (%s)" % (len(st["slot_diffs"]), d["id"], d["variant"])))
+    ctx.log("slot machine vs implementation: checked=%d agree=%d unresolved=%d (agreeing with the implementation against the reference: %d)"
+            % (st.get("slot_checked", 0), st.get("slot_agree", 0), st.get("slot_unresolved", 0), st.get("slot_agrees_with_impl_against_reference", 0)))
     soft = [f for f in failures if f.get("soft")]
     hard = [f for f in failures if not f.get("soft")]
     for f in soft[:5]:
@@ -393,8 +437,11 @@ def correspond(ctx):
         "non_ascii_stream": ust,
         "samples": [entries[0]["src"], entries[-1]["src"]],
         "corpus": corpus,
+        "slot_machine_tie": {"programs_checked": st.get("slot_checked", 0), "agree_with_implementation": st.get("slot_agree", 0),
+                             "unresolved_by_model_resolver": st.get("slot_unresolved", 0),
+                             "agree_with_implementation_where_reference_differs": st.get("slot_agrees_with_impl_against_reference", 0)},
     }
-    return {"coverage": cov, "failures": hard}
+    return {"coverage": cov, "failures": hard, "broken": broken}
 
 
 def search(ctx, broken):
@@ -421,12 +468,20 @@ META = {
                   "string layer: 30 string methods, % formatting, str.format with keyword arguments, repr/str of every value, ord/chr) "
                   "is a Gallina function; proved: split/join round trip, strip idempotence, find = first occurrence, replace laws, "
                   "partition, % and format laws for ALL strings, and fuel monotonicity of eval/call/exec and of whole programs (the outcome of a terminating program is well "
-                  "defined) for ALL programs. The property itself - the real parser+compiler+VM agree with the reference on every program - is "
+                  "defined) for ALL programs; the slice algorithm of values/index.rs equals the declarative walk; the algorithmic scope resolver of scope.rs "
+                  "(scope stack, copy-parent captures, scoped comprehension variables) returns the binding the lexical rule gives for every "
+                  "identifier use (Scope/Proofs.v); and SLOT SIMULATION (Scope/SlotSim.v, C01_slots_sim_partial): the slot-resolved program run on "
+                  "a model of the evaluator's frame discipline (slot arrays, lazily allocated captured cells kept in the slot, closures carrying "
+                  "the parent's cells, module slots) yields the same transcript and outcome as the reference for every program and fuel, provided no "
+                  "closure captures a comprehension variable and the reference run does not fail with Unbound - both side conditions are shown "
+                  "necessary by refutation theorems whose witnesses reproduce on the real evaluator (two known findings). The slot machine is itself "
+                  "tied to the evaluator on every run (same transcript/outcome/failing line on every generated program, including the two witnesses "
+                  "where it follows the evaluator against the reference). The property itself - the real parser+compiler+VM agree with the reference on every program - is "
                   "decided by correspondence: type-directed generated programs (with planted run-time failures) run at module level and "
                   "wrapped in a function on the real evaluator and by vm_compute on the reference; transcripts and outcome (failure kind + "
                   "innermost failing line) must be equal. CPython 3.11 validates the reference on every program.",
-    "level_note": "Trusted: Coq kernel; coq/Core/Sem.v as the meaning of programs (validated against CPython); tools/gen/progs.py; harness bin "
-                  "eval. Not modelled: the real bytecode compiler/VM (tie only), floats; strings are byte strings (modelled "
+    "level_note": "Trusted: Coq kernel; coq/Core/Sem.v as the meaning of programs (validated against CPython); coq/Scope/SlotSem.v as the model of "
+                  "the frame discipline (validated against the evaluator on every run); tools/gen/progs.py; harness bin eval. Not modelled: the real bytecode compiler/VM (tie only), floats; strings are byte strings (modelled "
                   "programs are ASCII; a separate non-ASCII stream compares implementation and CPython on code-point operations); "
                   "repr of values containing strings is compared implementation-vs-reference only (Starlark quotes differ from "
                   "Python's); programs too large for the Gallina interpreter are skipped and counted. Documented "
